@@ -41,6 +41,10 @@ EVENTS = {
     'x1²': (['unit', 'S', 'x1²', ['derive', ['x1']]], ['S', 'x1'], 'valid'),
     'vt': (['unit', 'V', 'vt', ['term', [['F:1/3', 1], ['x1', 1],
                                          ['y0', -1]]]], ['V', 'x1'], 'valid'),
+    # a term that is exactly the definition of 'x1/y1' (an alias when that
+    # unit exists already, the first unit of this definition otherwise)
+    'vt2': (['unit', 'V', 'vt2', ['term', [['x1', 1], ['y1', -1]]]],
+            ['V', 'x1', 'y1'], 'valid'),
     'st': (['unit', 'S', 'st', ['term', [['x1', 1], ['x0', 1]]]],
            ['S', 'x1'], 'valid'),
     'n1': (['unit', 'N1', 'n1', ['none']], ['N1'], 'valid'),
@@ -48,7 +52,29 @@ EVENTS = {
               ['NB', 'n1'], 'valid'),
     'x1dup': (['unit', 'B1', 'x1dup', ['scaled', 'i:1000', 'x0']], ['B1'],
               'valid'),
+    # two independent definition-less units of a type without reference
+    # unit, a scaled unit of each, and term units mixing the two families
+    'n2': (['unit', 'N1', 'n2', ['none']], ['N1'], 'valid'),
+    'n1k': (['unit', 'N1', 'n1k', ['scaled', 'i:1000', 'n1']], ['n1'],
+            'valid'),
+    'n2k': (['unit', 'N1', 'n2k', ['scaled', 'i:1000', 'n2']], ['n2'],
+            'valid'),
+    'nmix': (['unit', 'N1', 'nmix', ['term', [['i:3', 1], ['n1k', 1],
+                                             ['n2k', 1], ['n2k', -1]]]],
+             ['n1k', 'n2k'], 'valid'),
+    # symbols Unicode normalisation would change (OHM SIGN, ANGSTROM SIGN)
+    'B\u2126': (['type', 'B4', '\u2126', None], [], 'valid'),
+    'k\u2126': (['unit', 'B4', 'k\u2126', ['scaled', 'i:1000', '\u2126']],
+                ['B4'], 'valid'),
+    'S\u2126': (['dtype', 'S4', [['B4', 2]], None, None], ['B4'], 'valid'),
+    'k\u2126\u00b2': (['unit', 'S4', '\u212b', ['derive', ['k\u2126']]],
+                      ['S4', 'k\u2126'], 'valid'),
+    '!dup\u2126': (['unit', 'B4', '\u2126', ['scaled', 'i:5', '\u2126']],
+                   ['B4'], 'invalid:duplicate symbol'),
     # ---- invalid declarations
+    '!nmixbad': (['unit', 'N1', 'nmixbad', ['term', [['n1k', 2],
+                                                    ['n2k', -1]]]],
+                 ['n1k', 'n2k'], 'invalid:definition of another dimension'),
     '!dupsym': (['unit', 'B1', 'x0', ['scaled', 'i:5', 'x0']], ['B1'],
                 'invalid:duplicate symbol'),
     '!dupsym2': (['unit', 'B2', 'x1', ['scaled', 'i:5', 'y0']], ['B2', 'x1'],
@@ -67,6 +93,9 @@ EVENTS = {
                    ['B1', 'B2'], 'invalid:definition of another type'),
     '!otherdim': (['unit', 'B1', 'xbad2', ['term', [['x0', 2]]]], ['B1'],
                   'invalid:definition of another dimension'),
+    # the same with scaled units and a definition no unit has yet
+    '!otherdim2': (['unit', 'B1', 'xbad3', ['term', [['x1', 1], ['y1', -1]]]],
+                   ['x1', 'y1'], 'invalid:definition of another dimension'),
     '!wrongbase': (['unit', 'V', 'vbad', ['derive', ['y0', 'x0']]], ['V'],
                    'invalid:wrong base units'),
     '!wrongcount': (['unit', 'V', 'vbad2', ['derive', ['x0']]], ['V'],
@@ -291,9 +320,14 @@ def observe(w, with_ops=True):
                                  u.qty_cls.__name__)
                         else:
                             r = (str(O.fr(a)), u.symbol, u.qty_cls.__name__)
+                        rr = (str(O.fr(a)), None if u is None else u.symbol)
                     except Exception as exc:
-                        r = type(exc).__name__
+                        r = rr = type(exc).__name__
                     fp[f'O:{s1}{opn}{s2}'] = r
+                    # strict form (amount and unit as returned): only ever
+                    # compared between histories with identical accepted
+                    # steps and queries
+                    fp[f'R:{s1}{opn}{s2}'] = rr
     return viol, fp
 
 
@@ -302,6 +336,11 @@ def observe_in_fork(w, with_ops=True):
 
 
 def fp_hash(fp):
+    return h64(sorted(((k, v) for k, v in fp.items()
+                       if not k.startswith('R:')), key=lambda kv: kv[0]))
+
+
+def sfp_hash(fp):
     return h64(sorted(fp.items(), key=lambda kv: kv[0]))
 
 
@@ -316,7 +355,8 @@ def candidate_symbols():
             out.add(ev[2])
         elif ev[0] in ('cur', 'newcur'):
             out.add(ev[1])
-    return sorted(out | {'x0²', 'x0/y0', 'x1/y0', 'x0·y0', '', '5'})
+    return sorted(out | {'x0²', 'x0/y0', 'x1/y0', 'x0·y0', '', '5',
+                         '\u2126\u00b2'})
 
 
 def query(w):
@@ -373,6 +413,9 @@ def step(state, hist, name, with_ops=True):
                          "directory"))
         parent_fp, state['fp'] = state['fp'], fph
         return {'h': hist + [name], 'ok': True, 'viol': viol, 'fp': fph,
+                'sfp': sfp_hash(fp),
+                'strict_hist': [n for n, a in zip(hist + [name],
+                                                  state['acc']) if a],
                 'parent_fp': parent_fp, 'stop': False, 'query': True,
                 'valid_hist': [n for n, a in zip(hist + [name], state['acc'])
                                if a and not n.startswith('?')],
@@ -415,6 +458,9 @@ def step(state, hist, name, with_ops=True):
         # which observation changed?
         detail = 'changed'
     return {'h': hist + [name], 'ok': accepted, 'viol': viol, 'fp': fph,
+            'sfp': sfp_hash(fp),
+            'strict_hist': [n for n, a in zip(hist + [name], state['acc'])
+                            if a],
             'parent_fp': parent_fp, 'stop': stop,
             'valid_hist': [n for n, a in zip(hist + [name], state['acc'])
                            if a and not n.startswith('?')],
